@@ -130,6 +130,10 @@ def gen_case(rng, malformed=False):
                     b = rng.choice(meas)
             which = rng.choice(["corr", "cov"])
             v = gen_number(rng, which, std[a], std[b], malformed)
+            reps = [i for i in meas if qs[i]["kind"] == "repeated" and qs[i]["plain"]]
+            if len(reps) >= 2 and rng.random() < 0.15:     # inference between reading arrays
+                a, b = rng.sample(reps, 2)
+                v = None
             # inference from arrays with individual uncertainties is outside the quantifier
             if v is None and qs[a]["kind"] == "repeated" and qs[b]["kind"] == "repeated" and \
                     not (qs[a]["plain"] and qs[b]["plain"]) and len(qs[a]["raw"]) == len(qs[b]["raw"]):
